@@ -8,7 +8,13 @@
     _map_substrates_to_labelmap        [map_to_labelmap]: the READING DIRECTION is a regenerated fact
         DirInverse     res[pos] = substrate  for (substrate, pos) in zip(substrates, labelmap, strict)
         DirDocumented  [subs[i] for i in labelmap]   (product position i <- substrate position map[i])
-    per-position reactions             [lin_loop]        (skip substrate == product; -1/pool, +1/pool)  *)
+    per-position reactions             [lin_loop]        (skip substrate == product; -1/pool, +1/pool)
+    HOW the {compound: coefficient} dicts become lists of compounds is a regenerated fact ([expand_kind]):
+        ExpDuplicated  _stoichiometry_to_duplicate_list: a coefficient k gives k copies ([Iso.subs_of] / [Iso.prods_of])
+        ExpKeysOnly    iterating the dicts themselves (the change seeded as C16-4): every compound ONCE whatever its
+                       coefficient ([subs_keys] / [prods_keys]; a zero coefficient is a key of the product dict)
+      [lin_rxns] is the ExpDuplicated form (all theorems are about it); [lin_rxns_x] dispatches on the fact and is what
+      the correspondence check runs.  *)
 From Coq Require Import List ZArith NArith Bool Arith Lia QArith.
 From MxlBase Require Import ListX.
 From Label Require Import LModel Iso.
@@ -79,12 +85,38 @@ Definition lin_rxns (dir : direction) (isos : list (N * list lname)) (r : brxn) 
   bind (map_to_labelmap dir (fst sp) (snd sp) lmap) (fun subs' =>
   Ok (lin_loop (r_name r) 0 subs' (snd sp)))))).
 
+(** ---- the expansion of the stoichiometry dicts as a fact ---- *)
+Inductive expand_kind := ExpDuplicated | ExpKeysOnly | ExpUnknown.
+
+(** keys of the dicts returned by _unpack_stoichiometries: v < 0 -> substrates, everything else (0 included) -> products *)
+Definition subs_keys (st : list (N * Z)) : list N := map fst (filter (fun kv => (snd kv <? 0)%Z) st).
+Definition prods_keys (st : list (N * Z)) : list N := map fst (filter (fun kv => negb (snd kv <? 0)%Z) st).
+
+(** [lin_rxns] with the compound lists [bs] / [bp] given *)
+Definition lin_rxns_sides (dir : direction) (isos : list (N * list lname)) (rn : N) (bs bp : list N) (lmap : list Z)
+  : result (list lrxn) :=
+  bind (positions_of_all isos bs) (fun subs =>
+  bind (positions_of_all isos bp) (fun prods =>
+  bind (pad_ext subs prods lmap) (fun sp =>
+  bind (map_to_labelmap dir (fst sp) (snd sp) lmap) (fun subs' =>
+  Ok (lin_loop rn 0 subs' (snd sp)))))).
+
+Definition lin_rxns_x (ek : expand_kind) (dir : direction) (isos : list (N * list lname)) (r : brxn) (lmap : list Z)
+  : result (list lrxn) :=
+  match ek with
+  | ExpDuplicated => lin_rxns dir isos r lmap
+  | ExpKeysOnly => lin_rxns_sides dir isos (r_name r) (subs_keys (r_stoich r)) (prods_keys (r_stoich r)) lmap
+  | ExpUnknown => Err ErrName
+  end.
+
 (** initial label: variables[f"{base}__{pos}"] = 1 / len(positions) *)
 Definition lin_init_step (vars : list (lname * Q)) (ci : N * ilabel) : list (lname * Q) :=
   let pos := positions_of (snd ci) in
   fold_left (fun d p => setL (LPos (fst ci) p) (1 # Pos.of_nat (length pos))%Q d) pos vars.
 
-Definition build_linear (dir : direction) (lv : label_vars) (lmaps : label_maps) (init : option init_labels)
+(** build_model with the per-reaction translation [per_rxn] left open ([lin_rxns dir] in every theorem) *)
+Definition build_linear_with (per_rxn : list (N * list lname) -> brxn -> list Z -> result (list lrxn))
+           (lv : label_vars) (lmaps : label_maps) (init : option init_labels)
            (concs fluxes : list (N * Q)) (ext : Q) (rxns : list brxn) : result (lmodel Q) :=
   bind (lin_isotopomers lv) (fun isos =>
   let vars0 := flat_map (fun ci => map (fun k => (k, 0%Q)) (snd ci)) isos in
@@ -95,9 +127,13 @@ Definition build_linear (dir : direction) (lv : label_vars) (lmaps : label_maps)
   bind (collect (map (fun nm =>
           match find (fun r => N.eqb (r_name r) (fst nm)) rxns with
           | None => Err ErrKey
-          | Some r => lin_rxns dir isos r (snd nm)
+          | Some r => per_rxn isos r (snd nm)
           end) lmaps))
        (fun rs => Ok (mkLM params vars [] (concat rs)))).
+
+Definition build_linear (dir : direction) := build_linear_with (lin_rxns dir).
+(** what the correspondence check runs: the expansion follows the regenerated fact *)
+Definition build_linear_x (ek : expand_kind) (dir : direction) := build_linear_with (lin_rxns_x ek dir).
 
 (** ---- facts regenerated from the source on every run (GenLabelFacts.v) ----------------------- *)
 Inductive iso_dir_kind := IsoDocumented | IsoUnknown.       (* rate_suffix[i] for i in labelmap *)
@@ -111,6 +147,7 @@ Record label_facts := mkLabelFacts {
   f_iso_helpers : bool;             (* the small helpers of label_map.py have the modelled shape *)
   f_lin_dir : direction;            (* reading direction used by LinearLabelMapper.build_model *)
   f_lin_helpers : bool;             (* the helpers / loop of linear_label_map.py have the modelled shape *)
-  f_init_name : init_name_kind      (* name that receives the amount of an initially labelled compound *)
+  f_init_name : init_name_kind;     (* name that receives the amount of an initially labelled compound *)
+  f_lin_expand : expand_kind        (* how build_model expands the stoichiometry dicts into compound lists *)
 }.
 Definition ext_bit_of (f : label_facts) : bool := match f_ext_bit f with Some b => b | None => false end.
